@@ -24,10 +24,11 @@ def small_batches(count=4, threshold=2):
     AxolotlManager.THRESHOLD_REGEN = threshold
 
 
-def make_profile(phone):
-    """A YowProfile with an in-memory Config (so no config file is needed) whose key store lives under the private root."""
+def make_profile(phone, name=None):
+    """A YowProfile with an in-memory Config (so no config file is needed) whose key store lives under the private root.
+    name: the profile's name when it is not the phone number (an application may call a profile anything)."""
     from yowsup.profile.profile import YowProfile
     from yowsup.config.v1.config import Config
     from consonance.structs.keypair import KeyPair
     cfg = Config(phone=phone, cc="49", client_static_keypair=KeyPair.generate(), pushname="verif")
-    return YowProfile(phone, cfg)
+    return YowProfile(name or phone, cfg)
